@@ -13,7 +13,7 @@ LEVEL = 'exploration'
 SHARDS = {'quick': 4, 'thorough': 16}
 RULE = (
     'Function level: G-params specific-yield sets of both kinds x increasing level grids (inside, straddling either '
-    'end of, entirely beyond, and covering the knot range; uniform and irregular) handed to the real '
+    'end of, entirely beyond, and covering the knot range; uniform and irregular; float and integer dtype) handed to the real '
     'compute_rise_curve.  Oracle: W[j]-W[i] against exact quadrature of the same callable (5-point Gauss-Legendre per '
     'knot interval + rectangles outside; trapezoids on the 201 table points for PEATCLSM), the mean against the '
     'requested mean, non-decrease when sy >= 0 on the range, and invariance of values at shared levels (up to the '
@@ -32,6 +32,7 @@ REQUIRED = {
         'refinements-compared': 300,
         'grid:straddle-low': 20, 'grid:straddle-high': 20, 'grid:beyond-low': 20, 'grid:beyond-high': 20, 'grid:cover': 20,
         'peatclsm-curves': 20,
+        'integer-typed-grids': 20,
         'cli-tables-checked': 8,
         'cli-observation-vectors-checked': 8,
     }
@@ -58,10 +59,16 @@ def check_function_case(ctx, rng, params):
     f, knots = sy_reference(sy, params)
     grid, mode = gen_params.level_grid(rng, knots[0], knots[-1])
     grid = np.array(grid)
+    if rng.random() < 0.2:
+        # integer-typed level grid (np.arange(-400, 300, 7) is a natural call)
+        lo_i, hi_i = int(np.floor(grid[0])), int(np.ceil(grid[-1])) + 3
+        grid = np.arange(lo_i, hi_i, max(1, (hi_i - lo_i) // rng.randint(2, 30)))
+        ctx.rec.hit('integer-typed-grids')
     mean = rng.choice([0.0, rng.uniform(-500, 500)])
     case = {'kind': 'rise_fn', 'params': params, 'grid': grid.tolist(), 'mean': mean}
     try:
         W = np.asarray(sim.compute_rise_curve(sy, grid.copy(), mean), dtype=float)
+        grid = grid.astype(float)
     except Exception as exc:  # pylint: disable=broad-except
         desc = core.describe_exception(exc)
         if desc['origin'] == 'harness':
